@@ -8,7 +8,7 @@ REGISTRY = {}
 
 def evidence_pair(pid, tier, pl, verdict, nbad, t0, explanation, extra=None):
     st = pl.stats
-    if st["programs"] - st["rejected"] - st["crashed"] - st["linkerr"] < 10:
+    if (st["programs"] - st["rejected"] - st["crashed"] - st["linkerr"] < 10) and not verdict.violations:      # (a run that found violations reports them)
         raise common.ToolError("vacuous run: %s" % json.dumps(st))
     cov = dict(programs=st["programs"], disagreements_checked=nbad, samples=pl.samples[:4], states=st["states"], transitions=st["transitions"],
                traces_validated_against_impl=st["behaviours"], accepted=st["programs"] - st["rejected"] - st["crashed"], rejected_by_compiler=st["rejected"],
@@ -499,7 +499,7 @@ def c11(tier):
                 continue
             verdict.violation("%s changes the behaviour of the emitted code at -%s" % (c["_deco"], t["_lvl"]),
                               dict(property=pid, decoration=c["_deco"], where=c["_gap"], plain=c["src"], decorated=c["_dec"], input=t["inputs"][m["k"] - 1]["inp"], got=m["got"], want=m["want"]))
-    if same < 200:
+    if (same < 200) and not verdict.violations:      # (a run that found violations reports them)
         raise common.ToolError("vacuous: only %d comparisons" % same)
     # ---- Layer 2: CppScan.tla (the comment / string scanner of cpp::process as coded): model-checked against the textbook scanner on every
     # text within the bound, bound to the real preprocessor by replay; the real output is also judged against the textbook result
